@@ -96,8 +96,9 @@ func runMac(c *ctx) error {
 				bits += w
 			}
 		}
-		// exhaustive when the wire fields total few enough bits (<= 12 quick, <= 24 thorough)
-		lim := c.pick(12, 24)
+		// exhaustive when the wire fields total few enough bits (<= 12 quick, <= 16 thorough: 24 bits
+		// meant 16.7 million cases per command, all held in memory - 15 GB and no end in sight)
+		lim := c.pick(12, 16)
 		if bits <= lim {
 			total := 1 << uint(bits)
 			for v := 0; v < total; v++ {
